@@ -7,7 +7,10 @@ the shard process (lib/webharness.py).  Part (a) enumerates the finite product
 
 (the route/method table below is written by hand from the documented API, it is not derived from `app.handlers`;
 a handler pattern that no instance matches is reported).  Part (b) is a Hypothesis fuzz of unauthenticated raw
-requests (odd paths, methods, duplicated/garbled credential headers).
+requests (odd paths, methods, duplicated/garbled credential headers).  Part (c) generates *histories*: runtime
+reconfigurations of web_password (plaintext / argon2 hash / "" = fresh random token) interleaved with requests carrying
+passwords that are valid now, were valid under an earlier configuration, or never were; a reference model accepts a
+password only if it is valid under the CURRENT configuration.
 
 Oracle (per request, all observed from outside: status line, headers, body, state digest):
   * invalid credentials  -> status 403 (405 if the table says the route does not implement the method; 400 only for
@@ -36,7 +39,9 @@ RULE = ("finite product of hand-written route instances (every handler pattern, 
         "message kinds) x 7 methods x credential forms (none/wrong/malformed/valid in query, Authorization header, form "
         "body, signed cookie) x XSRF forms x Sec-Fetch-Site values, sent over loopback to the real tornado server; "
         "non-trivial = request that must be refused (invalid credentials, or state-changing method with bad XSRF / "
-        "cross-site marking); distinct by (path, method, cred, xsrf, sfs). Plus Hypothesis raw unauthenticated requests.")
+        "cross-site marking); distinct by (path, method, cred, xsrf, sfs). Plus Hypothesis raw unauthenticated requests, plus "
+        "histories of web_password reconfigurations (plaintext/argon2 hash/random token) interleaved with requests using "
+        "current, stale and wrong passwords (non-trivial = a stale credential is used after a reconfiguration).")
 ASSUMPTIONS = [
     "the state digest (flow states, view order/filter/focus/settings, all options, event log, client-replay queue, "
     "websocket connection set) covers everything a request can change",
@@ -49,6 +54,7 @@ LEVEL_TEXT = ("Exhaustive over the enumerated product in the thorough tier. Quic
 LEVEL_NOTE = "tornado HTTP parsing/cookie signing, loopback transport, harness state digest"
 QUICK_N = 6_000  # fuzz part; the enumerated part is sized by the product
 THOROUGH_N = 300_000
+HIST_QUICK_N, HIST_THOROUGH_N = 1_600, 120_000   # configuration/request histories (about 7 requests each)
 BUDGET_S = (300, 7200)
 
 SAFE = ("GET", "HEAD", "OPTIONS")
@@ -365,6 +371,8 @@ def _grants_session(resp, env):
 def check_case(case, ctx):
     if "raw" in case:
         return check_raw(case, ctx)
+    if "hist" in case:
+        return check_history(case, ctx)
     env = webharness.env()
     base = _fresh(env)
     path, method, cred, xsrf, sfs = case["path"], case["method"], case["cred"], case["xsrf"], case["sfs"]
@@ -439,6 +447,129 @@ def check_case(case, ctx):
             ctx.fail("sanity-valid-request-has-no-effect:%s" % tag, desc)
     else:
         ctx.cls("valid:ok-%d" % resp.status)
+
+
+
+# ------------------------------------------------------------------ history part: credentials follow the CURRENT configuration
+# web_password is reconfigured at runtime (plaintext / argon2 hash / "" = fresh random token) between requests that carry
+# passwords valid under the current, an earlier, or no configuration.  Reference model: the set of accepted passwords is
+# determined by the current configuration alone.
+H_PW = ["alpha", "bravo", "charlie", "wrong", "alph", "ALPHA"]        # candidate client passwords (besides tokens / hash strings)
+H_CONF = [("plain", "alpha"), ("plain", "bravo"), ("hash", "alpha"), ("hash", "bravo"), ("hash", "charlie"), ("hash2", "alpha"),
+          ("token", None)]
+H_ROUTES = [("GET", "/flows"), ("POST", "/clear"), ("GET", "/state"), ("DELETE", "/flows/a1"), ("GET", "/"), ("PUT", "/options"),
+            ("GET", "/flows/a1/request/content.data")]
+_HASHES = {}
+
+
+def _hash(kind, pw):
+    """deterministic low-cost argon2id encodings, computed once per process"""
+    k = (kind, pw)
+    if k not in _HASHES:
+        from argon2.low_level import Type, hash_secret
+        salt = b"verif-salt-one!!" if kind == "hash" else b"verif-salt-two!!"
+        _HASHES[k] = hash_secret(pw.encode(), salt, time_cost=1, memory_cost=8, parallelism=1, hash_len=16, type=Type.ID).decode()
+    return _HASHES[k]
+
+
+_h_op = st.one_of(
+    st.tuples(st.just("conf"), st.integers(0, len(H_CONF) - 1)),
+    st.tuples(st.just("req"), st.integers(0, len(H_ROUTES) - 1), st.sampled_from(["bearer", "query", "form"]),
+              st.one_of(st.integers(0, len(H_PW) - 1), st.sampled_from(["token-now", "token-old", "hash-string", "none"]))),
+    st.tuples(st.just("req"), st.integers(0, len(H_ROUTES) - 1), st.sampled_from(["bearer", "query", "form"]),
+              st.one_of(st.integers(0, len(H_PW) - 1), st.sampled_from(["token-now", "token-old", "hash-string", "none"]))),
+).map(list)
+
+
+def history_strategy(ctx):
+    return st.fixed_dictionaries({"hist": st.lists(_h_op, min_size=2, max_size=12)})
+
+
+def check_history(case, ctx):
+    env = webharness.env()
+    _fresh(env)
+    _St.dirty = True          # the configuration is changed below: the next case starts from a reset environment
+    accepted = {env.password}  # model: passwords valid under the current configuration
+    ever = set(accepted)
+    old_tokens = []
+    conf_now = ("token", None)
+    hash_now = None
+    stale_used = False
+    for step, op in enumerate(case["hist"]):
+        if op[0] == "conf":
+            kind, pw = H_CONF[op[1]]
+            if kind == "token":
+                old_tokens.append(env.password) if conf_now[0] == "token" else None
+                env.master.options.update(web_password="")
+                accepted, hash_now = {env.password}, None
+            elif kind == "plain":
+                if conf_now[0] == "token":
+                    old_tokens.append(env.password)
+                env.master.options.update(web_password=pw)
+                accepted, hash_now = {pw}, None
+            else:
+                if conf_now[0] == "token":
+                    old_tokens.append(env.password)
+                hash_now = _hash(kind, pw)
+                env.master.options.update(web_password=hash_now)
+                accepted = {pw}
+            conf_now = (kind, pw)
+            ever |= accepted
+            continue
+        _, ri, form, pwsel = op
+        method, path = H_ROUTES[ri]
+        if pwsel == "none":
+            pw = None
+        elif pwsel == "token-now":
+            pw = env.password if conf_now[0] == "token" else (old_tokens[-1] if old_tokens else "0" * 32)
+        elif pwsel == "token-old":
+            pw = old_tokens[0] if old_tokens else "f" * 32
+        elif pwsel == "hash-string":
+            pw = hash_now or _hash("hash", "alpha")
+        else:
+            pw = H_PW[pwsel]
+        headers = [("Cookie", "%s=%s" % (env.xsrf_cookie_name, TOK_A)), ("X-XSRFToken", TOK_A)]
+        body, target = b"", path
+        from urllib.parse import quote
+        if pw is not None:
+            if form == "bearer":
+                headers.append(("Authorization", "Bearer " + pw))
+            elif form == "query":
+                target += "?token=" + quote(pw, safe="")
+            else:
+                headers.append(("Content-Type", "application/x-www-form-urlencoded"))
+                body = b"token=" + quote(pw, safe="").encode()
+        if method == "PUT" and not body:
+            headers.append(("Content-Type", "application/json"))
+            body = b'{"anticomp": true}'
+        before = env.digest()
+        resp = env.request(method, target, headers, body)
+        after = env.digest()
+        # surrounding whitespace is trimmed by header parsing / tornado get_argument: validity unspecified (not generated)
+        if pw is not None and pw != pw.strip():
+            continue
+        valid = pw is not None and pw in accepted
+        stale = pw is not None and not valid and pw in ever
+        desc = "step %d: %s %s via %s password=%r config=%r -> %d; history=%r" % (step, method, path, form, pw, conf_now, resp.status, case["hist"][:step + 1])
+        if valid:
+            if resp.status == 403:
+                ctx.fail("history:current-password-refused:%s" % conf_now[0], desc)
+        else:
+            if stale:
+                stale_used = True
+            kind = "stale-password" if stale else "invalid-password"
+            if resp.status != 403:
+                ctx.fail("history:%s-accepted:%s" % (kind, conf_now[0]), desc)
+            if MARK in resp.body.lower():
+                ctx.fail("history:%s-discloses:%s" % (kind, conf_now[0]), desc)
+            if after != before:
+                ctx.fail("history:%s-state-change:%s" % (kind, conf_now[0]), desc)
+            if _grants_session(resp, env):
+                ctx.fail("history:%s-grants-cookie:%s" % (kind, conf_now[0]), desc)
+    if stale_used:
+        ctx.nt(("hist", repr(case["hist"])), "history:stale-credential-used")
+    else:
+        ctx.cls("history:no-stale-credential")
 
 
 # ------------------------------------------------------------------ enumeration
@@ -540,6 +671,7 @@ def run(ctx):
         ctx.extra["enumerated_requests"] = n
         ctx.extra["product_size_full"] = len(ROUTES) * len(METHODS) * len(CREDS) * len(XSRF) * len(SFS) if ctx.shard == 0 else 0
         hyp(ctx, strategy(ctx), check_case, ctx.n(QUICK_N, THOROUGH_N))
+        hyp(ctx, history_strategy(ctx), check_case, ctx.n(HIST_QUICK_N, HIST_THOROUGH_N))
     finally:
         webharness.close_env()
         _St.base = None
